@@ -142,6 +142,18 @@ pub fn replay(cases: &str, verdicts: &str) {
             let ok = guard(|| (mean(&x) - emean).abs() <= 1e-12 && (var(&x) - evar).abs() <= 1e-12 && min(&x) == emin && max(&x) == emax
                 && argmin(&x) == eamin && argmax(&x) == eamax);
             v.check(ok == Some(true), "signed-zero data", &class, &c, json!(ok));
+            // zeros of both signs are ties: the k-th zero is -0.0 for even k (then for odd k), first occurrence still wins; data
+            // shifted so that 0 is the largest / the smallest value makes the zeros the extreme
+            let (hi, lo) = (base.iter().cloned().fold(f64::MIN, f64::max), base.iter().cloned().fold(f64::MAX, f64::min));
+            for (sh, name) in [(0.0, "as-is"), (hi, "zero-is-max"), (lo, "zero-is-min")] {
+                for parity in [0usize, 1] {
+                    let mut k = 0usize;
+                    let xs: Vec<f64> = base.iter().map(|t| { let u = t - sh; if u == 0.0 { k += 1; if k % 2 == parity { -0.0 } else { 0.0 } } else { u } }).collect();
+                    let ok = guard(|| min(&xs) == emin - sh && max(&xs) == emax - sh && argmin(&xs) == eamin && argmax(&xs) == eamax
+                        && Vector::new(xs.clone()).argmin() == eamin && Vector::new(xs.clone()).argmax() == eamax);
+                    v.check(ok == Some(true), "mixed signed zeros", &format!("{} {}", shape, name), &json!({"x": fjs(&xs)}), json!(ok));
+                }
+            }
         }
     });
     v.finish();
@@ -164,9 +176,18 @@ pub fn record(seed: u64, nev: usize, out: &str, maxlen: i64) {
                 // residual exponents relative to the data scale (means) / its square (second moments)
                 let sc = x.iter().chain(y.iter()).fold(1.0f64, |m, t| m.max(t.abs()));
                 let res: Vec<Value> = r.iter().enumerate().map(|(i, v)| projr_scaled_by(*v, 2000000, if i < 2 { sc } else if i < 8 { sc * sc } else { 0.0 })).collect();
-                t.emit(json!({"x": projs(&x, 1), "y": projs(&y, 1), "out": "ok", "res": res}))
+                // the same data far from the origin (mean / spread up to 1e8): second moments unchanged within the bound of a stable algorithm
+                let spread = 2.0 * amp as f64;
+                let mut shift_ok = true; let mut worst = json!("");
+                for off in [1048576.0f64, 1e8, -1e8] {
+                    let xs: Vec<f64> = x.iter().map(|t| t + off).collect();
+                    let ys: Vec<f64> = y.iter().map(|t| t - off / 4.0).collect();
+                    let g = guard(|| vec![var(&xs), sample_var(&xs), covariance(&xs, &ys), sample_covariance(&xs, &ys), sample_covariance_onepass(&xs, &ys), sample_covariance_online(&xs, &ys)]);
+                    match g { Some(g) => for i in 0..6 { if !tol_ok(g[i], r[2 + i], spread, off) { shift_ok = false; worst = json!({"offset": off, "stat": i, "got": g[i], "unshifted": r[2 + i]}); } }, None => { shift_ok = false; worst = json!("panic"); } }
+                }
+                t.emit(json!({"x": projs(&x, 1), "y": projs(&y, 1), "out": "ok", "res": res, "shift_ok": shift_ok, "shift_worst": worst}))
             }
-            None => t.emit(json!({"x": projs(&x, 1), "y": projs(&y, 1), "out": "panic", "res": []})),
+            None => t.emit(json!({"x": projs(&x, 1), "y": projs(&y, 1), "out": "panic", "res": [], "shift_ok": false, "shift_worst": ""})),
         }
     }
     let _ = Value::Null;
